@@ -204,6 +204,12 @@ func (c *concretizer) stmt(s xStmt) {
 		} else {
 			c.w("{{ " + c.expr(s.E) + " }}")
 		}
+	case "lookup":
+		key := "nokey"
+		if s.G == "hit" {
+			key = "hit"
+		}
+		c.w("{{ " + s.N + ", " + s.N2 + " := gmap[" + strconv.Quote(key) + "] }}")
 	case "let":
 		c.w("{{ " + s.N + " := " + c.expr(s.E) + " }}")
 	case "set":
@@ -589,6 +595,7 @@ func xBuildOpt(c *xCase, esc jet.SafeWriter, useEsc bool, html bool) (*xWorld, e
 		w.Write([]byte("}"))
 	}))
 	set.AddGlobal("gjoin", func(sep string, parts ...string) string { return strings.Join(parts, sep) })
+	set.AddGlobal("gmap", map[string]string{"hit": "hv"})
 	set.AddGlobal("gst", gStruct{Name: "n"})
 	set.AddGlobal("gnilp", (*gStruct)(nil))
 	set.AddGlobal("gsl", []string{"a", "b", "c"})
